@@ -89,6 +89,7 @@ class Build:
         inc = ['-I', os.path.join(ROOT, 'model'), '-I', self.gen, '-I', os.path.join(ROOT, 'contracts')]
         self.inc = inc
         for src, out, defs in ((os.path.join(self.gen, 'low.c'), 'low.gb', []),
+                               (os.path.join(self.gen, 'low.c'), 'low_trk.gb', ['-DVF_TRACK_ALLOC']),
                                (os.path.join(ROOT, 'model', 'vf_std.c'), 'vf_std.gb', []),
                                (os.path.join(ROOT, 'model', 'vf_std.c'), 'vf_std_trk.gb', ['-DVF_TRACK_ALLOC'])):
             rc, so, se, _ = sh(['goto-cc', '-D__CPROVER__VF'] + defs + inc + ['-c', src, '-o', os.path.join(self.dir, out)])
@@ -179,7 +180,7 @@ def classify(r, unit, tags):
         ob['cls'] = 'ub'
     elif '.assertion.' in pid:
         if 'operator[] index' in desc or 'delete' in desc or 'pop_back' in desc or 'ill-formed' in desc \
-                or 'ostream::write source' in desc or 'istream::read destination' in desc \
+                or 'ostream::write source' in desc or 'istream::read destination' in desc or 'matches the new' in desc \
                 or 'default constructor' in desc:
             ob['cls'] = 'memsafe'
         else:
@@ -201,7 +202,7 @@ def unit_cmds(u, b, out):
     igb = os.path.join(out, 'i.gb')
     trk = bool(u.get('track_alloc'))
     cc = ['goto-cc', '-D__CPROVER__VF'] + (['-DVF_TRACK_ALLOC'] if trk else []) + [('-D' + d) for d in u.get('defines', [])] + \
-        b.inc + [os.path.join(b.dir, 'low.gb'), os.path.join(b.dir, 'vf_std_trk.gb' if trk else 'vf_std.gb'),
+        b.inc + [os.path.join(b.dir, 'low_trk.gb' if trk else 'low.gb'), os.path.join(b.dir, 'vf_std_trk.gb' if trk else 'vf_std.gb'),
                  src, '--function', u['harness'], '-o', ugb]
     gi = ['goto-instrument']
     if u.get('mode', 'dfcc') == 'dfcc':
